@@ -31,6 +31,23 @@ YieldedInOrder == Increasing(G.yielded) /\ \A j \in 1..Len(G.yielded) : G.yielde
 \* every member sees the records in order without gaps: the coordinator is never ahead of or behind a member it lets consider
 MemberInStep == (G.pc = "run" /\ Case.kind = "byline") => G.S[G.m].k = G.k
 
+\* ---- C08 on concrete members: without cross-path signals ------------------------------------------------
+\* (Case.signals is FALSE when no member uses stop_all/fail_all/skip_all/advance_all)
+RECURSIVE RunAlone(_, _)
+RunAlone(c, S) == IF S.pc = "iter" THEN RunAlone(c, Step(c, S)) ELSE S
+\* every member ends exactly as a standalone CsvPath over the same file ends, under both schedules; a line-major run that
+\* is over before the end of the file (every member has stopped) leaves each member where its own run stopped
+SoloConcrete == (G.pc = "end" /\ ~Case.signals) =>
+                   \A m \in 1..NM : G.S[m] = RunAlone(MCaseOf(Case, m), InitS(MCaseOf(Case, m)))
+\* the records handed to the caller of a line-major run are, per record, the union (if_all_agree: the intersection) of the
+\* decisions of the members that looked at it
+MaxK == LET ks == {G.S[m].k : m \in 1..NM} IN CHOOSE x \in ks : \A y \in ks : y <= x
+InSeq(s, x) == \E j \in 1..Len(s) : s[j] = x
+KeepRule(k) == LET A == {m \in 1..NM : k < G.S[m].k} IN
+                 IF Case.allAgree THEN \A m \in A : InSeq(G.S[m].returned, k) ELSE \E m \in A : InSeq(G.S[m].returned, k)
+YieldRule == (G.pc = "end" /\ ~Case.signals /\ Case.kind = "byline") =>
+                G.yielded = SelectSeq([j \in 1..MaxK |-> j - 1], KeepRule)
+
 Emit == G.pc = "end" =>
    PrintT(<<"F", ToJson([cid |-> Case.tid, started |-> StartedOf(Case, G), yielded |-> G.yielded, allValid |-> AllValidOf(Case, G),
                          members |-> [m \in 1..NM |-> [valid |-> G.S[m].st.valid, stopped |-> G.S[m].st.stopped,
